@@ -24,8 +24,9 @@ def run(tier):
         n = q if tier == "quick" else t
         to = 240 if tier == "quick" else 1500
         env = {"H_SPEC": spec, "H_LEN": str(n)}
-        if spec == "amb":
-            env["H_REACH"] = "1"  # every word of this spec has length 1
+        from checks.parsefam import REACH
+        if spec in REACH:
+            env["H_REACH"] = str(min(n, int(REACH[spec])))  # the spec has no longer words
         conds.append(Cond("h_parse_str.py", "sound", to, twin="reach", path_timeout=to / 2, env=env))
     conds.append(Cond("h_parse_str.py", "sound", 240 if tier == "quick" else 1500, twin="reach",
                       env={"H_SPEC": "uni", "H_LEN": "2" if tier == "quick" else "3", "H_START": "<alt>"}))
